@@ -11,9 +11,11 @@ Tie, on every run:
        `_parse_tensordot_axes_to_matmul` / `_sanitize_equation`  ==  plan of the Lean model, over the
        *enumerated* space of the property (all equations up to renaming x all shapes from {1,2,3} x
        every output order; every tensordot axes form);
-  (A)  a real plan that differs from the model's is evaluated by the Lean array semantics on the
-       case's arrays and must give the Lean reference value (so a harmless rewrite of the planner
-       stays quiet); counted separately, the universal theorem does not cover such plans;
+  (A)  every real plan is run through the Lean checker `planOK`, proved sound (`planOK_sound`): an
+       accepted plan is correct for ALL arrays of the shapes, whether or not it equals the model's
+       (so a harmless rewrite of the planner stays quiet and is still covered by the theorem); a
+       rejected plan is evaluated by the Lean array semantics on the case's arrays and must give
+       the Lean reference value, and is counted separately;
   (M)  the Lean model of numpy is validated: Lean-evaluated plan value and Lean reference value
        versus the real result and harness/refimpl.dense_einsum on integer arrays.
 Oracle (implementation only): real `contract.einsum` / `contract.tensordot` / `_einsum_single`
@@ -42,8 +44,10 @@ LEVEL_TEXT = (
     "transpose/reshape/matmul/multiply/sum/advanced-index step of the model of _do_contraction_via_bmm/"
     "_einsum_single on it is defined, and the result equals the reference einsum entry by entry "
     "(model_plan_sound, single_plan_sound); for the code at HEAD the same under the exact guard ShortcutSafe, "
-    "with a proved counterexample outside it. The planner model is tied to /repo on every run by equality of "
-    "plans over the enumerated space of the property, and the array model by exact comparison with numpy."
+    "with a proved counterexample outside it; a decidable checker planOK is proved sound (planOK_sound: an "
+    "accepted plan is correct for all arrays) and is run on every plan the real planner returns over the "
+    "enumerated space of the property, together with plan equality against the model; tensordot's equation is "
+    "proved well formed; the array model is tied to numpy by exact comparison on integer arrays."
 )
 LEVEL_NOTE = (
     "Trusted: Lean kernel; Model/FArr.lean as a model of numpy (validated on integer arrays every run); the "
